@@ -419,6 +419,21 @@ def long_unterminated():
     return out
 
 
+def long_runs():
+    """One character (or two-character group) repeated many times after every kind of opener, closed or left open: a rule
+    of the library's own lexer that can match a run in more than one way turns such an input into exponential work.
+    Typical cost is microseconds per text."""
+    openers = ["$[\"", "$['", "$[?@.a == \"", "$[?@.a == '", "$[?@.a =~ /", "$[?match(@.a, '", "$.", "$[", "$[?", "$[?@.a == ", "$..", "$[?@.a =~ /a", "$[?@['"]
+    units = ["\\", "/", "'", "\"", "(", ")", "[", ".", " ", "\\/", "\\\"", "\\'", "a", "*", "!", "-", "1", "\u00e9", "$", "@", "&", "|", "#", "~", "^", "_", "e", "+", "\\u", "\\\\", "\t", "0", "=", "<", "?", ":", ","]
+    out = []
+    for op in openers:
+        for u in units:
+            for n in (40, 64, 121):
+                for tail in ("", "d]", "/]", "']"):
+                    out.append(op + u * n + tail)
+    return out
+
+
 def run(spec, ctx):
     try:
         run_workload(spec, ctx)
@@ -513,6 +528,14 @@ def run_workload(spec, ctx):
         for text in long_unterminated():
             query_case(ctx, text, [[{"a": "abc def_abc"}]])
             ctx.count("long_unterminated_texts")
+        for text in long_runs():
+            query_case(ctx, text, [[{"a": "abc"}]])
+            ctx.count("long_runs_of_one_character_after_an_opener")
+        for u in ("\\", "/", "~", "~0", "~1", "#", "-", "0", "1", " ", "%", "%2", "\\u", "\\u00", "+", "a", "\u00e9"):
+            for n in (40, 64, 121):
+                for text in ("/" + u * n, "/a" + u * n + "/b", u * n):
+                    pointer_case(ctx, text, [{"a": 1}])
+                    ctx.count("long_runs_of_one_character_in_pointer_texts")
         # every registered filter function x every argument form (literal of each type, @, @.m,
         # $.m, _.m, @.*) in one- to three-argument calls, on documents holding every kind of
         # value at the positions the arguments read
